@@ -40,6 +40,13 @@ func newGate(w *concWorld, name string) *gate {
 	return g
 }
 
+// evalW: evalObs under a watchdog (an operation on an atom left locked would never return)
+func evalW(w *concWorld, src string) string {
+	o := "BLOCKED"
+	within(2*concWatchdog, func() { o = w.evalObs(context.Background(), src) })
+	return o
+}
+
 func init() {
 	// C09: a swap! that has to retry (the atom changed while its update function ran) applies the function again to the
 	// NEW value with the same extra arguments; if the function fails on the retry the atom keeps the other writer's value
@@ -66,7 +73,7 @@ func init() {
 			case <-time.After(10 * time.Second):
 				return "setup-error update function never entered"
 			}
-			if o := w.evalObs(bg, "(reset! a 10)"); o != "ok I10" {
+			if o := evalW(w, "(reset! a 10)"); o != "ok I10" {
 				close(g.release)
 				return o + "\t!reset! while an update function of swap! is running"
 			}
@@ -77,7 +84,7 @@ func init() {
 			case <-time.After(10 * time.Second):
 				return "BLOCKED\t!swap! overtaken by a reset! never returns"
 			}
-			at := w.evalObs(bg, "(deref a)")
+			at := evalW(w, "(deref a)")
 			okRes := o == c.wantRes || (c.wantRes == "err" && strings.HasPrefix(o, "err"))
 			if !okRes || at != c.wantAtom {
 				return "swap=" + o + " atom=" + at + "\t!" + c.why + " (expected " + c.wantRes + " / " + c.wantAtom + ")"
@@ -92,7 +99,7 @@ func init() {
 		if err != nil {
 			return "setup-error"
 		}
-		o := w.evalObs(context.Background(), `(do (def f (future-call (fn [x] x)))
+		o := evalW(w, `(do (def f (future-call (fn [x] x)))
 		    (let [e1 (try (deref f) (catch e :failed)) e2 (try (deref f) (catch e :failed))]
 		      [e1 e2 (future-done? f) (future-cancel f) (future-cancelled? f) (future-done? f)]))`)
 		if o != "ok ( V Sca9e6661696c6564 Sca9e6661696c6564 T F F T )" {
@@ -120,10 +127,10 @@ func init() {
 			return "setup-error"
 		}
 		time.Sleep(20 * time.Millisecond)
-		before := w.evalObs(bg, "[(future-cancel f) (future-cancelled? f)]")
+		before := evalW(w, "[(future-cancel f) (future-cancelled? f)]")
 		close(release)
 		time.Sleep(150 * time.Millisecond) // the body completes with 42
-		after := w.evalObs(bg, "[(future-cancelled? f) (future-done? f) (future-cancel f) (future-cancelled? f)]")
+		after := evalW(w, "[(future-cancelled? f) (future-done? f) (future-cancel f) (future-cancelled? f)]")
 		if before != "ok ( V T T )" || after != "ok ( V T T T T )" {
 			return "before=" + before + " after=" + after + "\t!future-cancelled? went back to false (or cancel changed its answer) once the body that ignored the cancellation had completed"
 		}
